@@ -618,6 +618,16 @@ func (ex *Exec) typeAssert(fr *Frame, i *ssa.TypeAssert, st *State) {
 		var alts []Term
 		for k := range x.Cases {
 			if k == "other" {
+				declared := false
+				for _, o := range ex.p.cs.OtherImpl[typeKey(i.X.Type())] {
+					if o == typeKey(at) {
+						declared = true
+					}
+				}
+				if declared {
+					alts = append(alts, Eq(x.Tag, BVConst(tagOther, 16)))
+					continue
+				}
 				u := ex.declare("implements", BoolSort)
 				alts = append(alts, And(Eq(x.Tag, BVConst(tagOther, 16)), u))
 				continue
